@@ -287,6 +287,9 @@ class G:
         lines = []
         names = ["A", "B", "C", "D"][:depth]
         methods = ["m1", "m2", "m3"]
+        if self.r.chance(1, 3):
+            self.tag("overrides-builtin-derives")
+            methods = methods + ["derives"]      # a user method with the name of Object's built-in one: nearest definition wins all the same
         defined = {}
         extra = {}
         for i, n in enumerate(names):
